@@ -200,7 +200,7 @@ func runC11(c *Ctx) {
 			if bo.Op == token.GTR && isZero(bo.Y) {
 				gauge = true
 			}
-			if (bo.Op == token.LEQ || bo.Op == token.LSS) && bo.Y == ssa.Value(fn.Params[1]) {
+			if (bo.Op == token.LEQ || bo.Op == token.LSS) && sameParam(bo.Y, fn.Params[1]) {
 				bounded = true
 			}
 		}
